@@ -160,7 +160,8 @@ def _sim_acyclic(plan):
     return nx.is_directed_acyclic_graph(g)
 
 
-SPEC_KIND = {"v": "v", "c": "c", "t": "t", "p": "p", "d": "c", "e": "t"}
+# (q: the legacy PIT calculator - a caching node whose only input is a distribution node)
+SPEC_KIND = {"v": "v", "c": "c", "t": "t", "p": "p", "d": "c", "e": "t", "q": "c"}
 
 
 class GraphRun:
@@ -178,6 +179,7 @@ class GraphRun:
         NONE_STR[self.rid] = self.none_str
         self.nodes = {}
         self.vars = {}
+        self.pits = {}
         init = {}
         for i, p in enumerate(plan, start=1):
             name = f"n{i}"
@@ -206,7 +208,11 @@ class GraphRun:
                 inp = [j for j in p["inp"] if not self.plan[j - 1].get("seed_for")]
                 ins = [init[j] if self.plan[j - 1].get("literal") else self.nodes[j] for j in inp]
                 fn = self._fn(i, p["kind"], seeded=bool(p.get("seeded")))
-                if p["kind"] == "c":
+                if p["kind"] == "q":
+                    from liesel.model.legacy import PITCalc
+                    self.pits[p["inp"][0]] = i
+                    self.nodes[i] = PITCalc(ins[0], _name=name)
+                elif p["kind"] == "c":
                     self.nodes[i] = lsl.Calc(fn, *ins, _name=name, update_on_init=False, _needs_seed=bool(p.get("seeded")))
                 elif p["kind"] == "t":
                     self.nodes[i] = lsl.TransientCalc(fn, *ins, _name=name, update_on_init=False)
@@ -254,6 +260,7 @@ class GraphRun:
 
     def _dist(self, i, kind):
         rid = self._rid()
+        pits = self.__dict__.setdefault("pits", {})
 
         class FakeDist:
             def __init__(self, *params):
@@ -264,6 +271,14 @@ class GraphRun:
                 if kind == "d":
                     CALLS[rid].append(i)
                 return Term(f"f{i}(" + ",".join(NONE_STR[rid] if v is None else str(v) for v in (*self.params, x)) + ")")
+
+            def cdf(self, x):
+                # read by the PIT calculator on top of this distribution node: a function of what the node evaluates to
+                _check((*self.params, x))
+                pid = pits[i]
+                CALLS[rid].append(pid)
+                inner = f"f{i}(" + ",".join(NONE_STR[rid] if v is None else str(v) for v in (*self.params, x)) + ")"
+                return Term(f"f{pid}({inner})")
         return FakeDist
 
     # ---- observation ---------------------------------------------------------------
@@ -528,6 +543,27 @@ def literal_traces(nseeds=6):
         ops = [{"ev": "update_all"}, {"ev": "assign", "n": 1 + k % 2, "x": "c7", "via_var": False}, {"ev": "update_all"},
                {"ev": "save"}, {"ev": "assign", "n": 6, "x": "c8", "via_var": False}]
         ops += gen_ops(rng, plan, 14, reload_ok=True)
+        ev = run_ops(run, ops)
+        run.close()
+        hdr["ops"] = ops
+        out.append({"hdr": hdr, "ev": ev})
+    return out
+
+
+def pit_traces():
+    """The legacy PIT calculator on top of a (caching / transient) distribution node: a caching node that depends on the
+    distribution's parameters *and* on the value the distribution is evaluated at."""
+    out = []
+    for dk in ("d", "e"):
+        plan = [{"kind": "v", "inp": []}, {"kind": "v", "inp": []}, {"kind": dk, "inp": [1, 2]}, {"kind": "q", "inp": [3]},
+                {"kind": "c", "inp": [4]}]
+        run = GraphRun(plan)
+        hdr = run.header(hidden=True)
+        A = lambda n, x, via=False: {"ev": "assign", "n": n, "x": x, "via_var": via}  # noqa: E731
+        ops = [{"ev": "update_all"}, A(2, "c1"), {"ev": "update_all"}, {"ev": "set_auto", "b": False}, A(2, "c2"),
+               {"ev": "update_targets", "targets": [4]}, {"ev": "update_all"}, A(1, "c3"), {"ev": "update_targets", "targets": [5]},
+               {"ev": "update_all"}, {"ev": "save"}, A(2, "c4"), {"ev": "update_all"}, {"ev": "restore", "slot": 1},
+               {"ev": "update_all"}, {"ev": "set_auto", "b": True}, A(2, "c5"), A(1, "c6")]
         ev = run_ops(run, ops)
         run.close()
         hdr["ops"] = ops
